@@ -407,7 +407,8 @@ impl Sim {
             let hostile = [
                 "quo\"te", "back\\slash", "tab\there", "new\nline",
                 "esc\u{1b}[31m", "uni\u{e4}\u{1f4a9}", "brace}{", "nul\u{0}x",
-                "plain-label",
+                "del\u{7f}x", "c1\u{85}\u{9b}x", "cr\rlf", "ff\u{c}bs\u{8}",
+                "sep\u{2028}\u{2029}", "plain-label",
             ];
             for tal in &sim.world.tals {
                 if lrng.chance(80, 100) {
@@ -1298,7 +1299,10 @@ impl Sim {
                 spec.crl_this_update = now;
             }
             spec.next_update = now + rng.range(2, 72) * 3600;
-            spec.crl_next_update = spec.next_update + rng.range(0, 6) * 1800;
+            // The CRL may run out before or after the manifest.
+            spec.crl_next_update = (
+                spec.next_update + rng.range(-40, 6) * 1800
+            ).max(now + 1800);
             spec.mft_ee_serial = serial;
             spec.mft_ee_nb = spec.this_update.min(now) - 300;
             spec.mft_ee_na = spec.next_update + rng.range(0, 48) * 3600;
